@@ -10,6 +10,7 @@ pub mod c06;
 pub mod c08;
 pub mod c11;
 pub mod c12;
+pub mod c15;
 pub mod c16;
 pub mod c20;
 
@@ -39,6 +40,7 @@ pub fn dispatch(prop: &str, m: &Model, ctx: &mut Ctx, facts: Option<&Value>) -> 
         "C03" => c03::run(m, ctx),
         "C05" => c05::run(m, ctx),
         "C06" => c06::run(m, ctx),
+        "C15" => c15::run(m, ctx),
         "C08" => c08::run(m, ctx, loaded.as_ref().unwrap()),
         "C11" => c11::run(m, ctx, loaded.as_ref().unwrap()),
         "C12" => c12::run(m, ctx, loaded.as_ref().unwrap()),
